@@ -40,7 +40,7 @@ UNIT = {
     ],
 }
 NOT_DECIDED = {'C18': ['well-formedness of the JSON text: jsonify is string code outside Verus\' reach - only the BOUNDED stand-in evaluate-response-is-json looks at it; values without a JSON rendering (functions, ranges, Infinity / NaN numbers: C02 known findings) are not decided',
-                       'TCK DTO round trip: the structure of the conversions is proved in unit dto; the text forms of scalars and names (A-text) only by the BOUNDED stand-in tck-dto-round-trip; actix routing, lock handling, survival after malformed requests',
+                       'TCK DTO round trip: the structure of the conversions is proved in unit dto; the text forms of scalars and names (A-text) only by the BOUNDED stand-in tck-dto-round-trip; lock poisoning, body limits; actix routing and survival after malformed requests only through the BOUNDED stand-in http-histories-on-the-real-service',
                        'do_evaluate / do_evaluate_tck take &Workspace: they cannot modify it (enforced by the type checker, not by a contract)']}
 ASSUMPTIONS = ['the workspace operations are uninterpreted state transformers here; their meaning is proved in unit workspace (C17)',
                'base64::decode, String::from_utf8 and dmntk_model::parse are total functions returning a Result (R11 stubs)']
@@ -50,6 +50,11 @@ BOUNDED = {
              'functions': ['Value::jsonify, Values::jsonify, FeelContext::jsonify, FeelNumber::jsonify (feel, feel-number)'],
              'bound': '1 428 values (the TCK grid - including a string for every control character U+0000..U+001F, U+007F, the quotation mark, the backslash and U+2028 - plus contexts with a key that needs escaping): {"data": <jsonify>} parses with serde_json and decodes to the value - strings, booleans, null, lists, contexts structurally, numbers at f64 precision, '
                       'dates / times / durations as JSON strings of their FEEL text; plus 24 numbers of both signs with small and large magnitudes, reduced-form and exponent-form zeros (bare, in a list, in a context), each compared with its value written out in the harness'},
+            {'name': 'http-histories-on-the-real-service', 'script': 'httpdiff.py', 'args': [], 'thorough_args': ['--thorough'],
+             'functions': ['dmntk_server::start_server and every handler (actix routing, JSON extraction, the error handler)', 'do_clear / do_add / do_replace / do_remove / do_deploy_definitions', 'do_evaluate / do_evaluate_tck'],
+             'bound': 'the real service on a loopback port: 2 787 request sequences (about 36 000 requests; thorough: base sequences up to length 3) mixing definitions operations over five models, /evaluate and /tck/evaluate, and 15 kinds of '
+                      'malformed request (truncated JSON, missing parameters, invalid base64, invalid UTF-8 inside well-formed XML, truncated XML, unknown model / invocable, a body that is not a context, unknown endpoint) at every position: '
+                      'every response is a well-formed JSON document, failures are in `errors`, successes in `data`, answers equal a reference workspace written out from the property (a rejected or malformed request changes nothing), and the service keeps answering'},
             {'name': 'tck-dto-round-trip', 'driver': 'tck', 'args': [],
              'functions': ['server/src/dto.rs (compiled into the driver from the repository file): TryFrom<&Value> for ValueDto, TryFrom<&ValueDto / &SimpleDto / &Vec<ComponentDto> / &ComponentDto / &ListDto / &Vec<ValueDto>> for WrappedValue', 'serde_json (real)'],
              'bound': '1 428 values: 68 scalars of every TCK kind (strings with quotes, backslashes, control and non-ASCII characters; numbers; booleans; null; dates; times with and without offset; date-times; both duration kinds) and the lists / '
